@@ -11,6 +11,13 @@ from .c06 import insert_paths
 DELEGATING_MULTIPLY = ('plane.Pupil.multiply', 'plane.Image.multiply', 'plane.TiltInterface.multiply')
 
 
+def _canon_fresh(text):
+    """the text of a term with the values created during the analysis numbered in order of appearance"""
+    import re
+    seen = {}
+    return re.sub(r'fresh<(\d+)', lambda m: 'fresh<#%d' % seen.setdefault(m.group(1), len(seen)), text)
+
+
 def insert_stores(repo, intensity):
     fld = S('field')
     f, paths, _ = analyse(repo, 'field.insert', config={'intensity': intensity},
@@ -77,11 +84,17 @@ def run(chk, repo, tier):
     f, si = insert_stores(repo, TRUE)
     _, sc = insert_stores(repo, FALSE)
     n, ok, det = 0, True, ''
-    for k, (p, ws) in si.items():
-        if k not in sc:
+    by_order = len(si) == len(sc) and not all(k in sc for k in si)
+    for pos, (k, (p, ws)) in enumerate(si.items()):
+        if by_order:
+            # the path conditions mention values created during the analysis (numbered per run): the two analyses walk the
+            # same statements in the same order, so the paths are paired by position
+            wc = list(sc.values())[pos][1]
+        elif k not in sc:
             ok, det = False, 'the intensity branch takes paths the complex branch does not'
             continue
-        wc = sc[k][1]
+        else:
+            wc = sc[k][1]
         if not ws and not wc and p.ret == S('out'):
             continue            # nothing is added on this path in either branch (a field wholly outside the array, C06-c)
         if len(ws) != 1 or len(wc) != 1:
@@ -97,7 +110,12 @@ def run(chk, repo, tier):
         wantA = nf.app('abs', X ** 2) * w if X is not None else None
         from ..npmodel import nf_abs
         wantB = nf_abs(X) ** 2 * w if X is not None and len(X.terms) == 1 else None
-        good = good and X is not None and not any(a == ('sym', 'weight') for a in X.atoms()) and ri in (wantA, wantB)
+        same = ri in (wantA, wantB)
+        if not same and by_order and X is not None and ri is not None:
+            same = _canon_fresh(fmt(ri)) in [_canon_fresh(fmt(w_)) for w_ in (wantA, wantB) if w_ is not None]
+            good = ws[0].data.get('key') is not None and ws[0].data.get('aug') == 'add' and wc[0].data.get('aug') == 'add' and \
+                _canon_fresh(fmt(ws[0].data.get('key'))) == _canon_fresh(fmt(wc[0].data.get('key')))
+        good = good and X is not None and not any(a == ('sym', 'weight') for a in X.atoms()) and same
         if not good:
             ok, det = False, f'complex: out[...] += {fmt(rc)}; intensity: out[...] += {fmt(ri)} [{conds_str(p)}]'
     chk.ob('C07-a', 'N-twin', f.key, 'intensity branch = |same samples|^2 with the same slices and weight', ok and n > 0,
